@@ -155,6 +155,7 @@ class C08(World):
     ]
     components_stub = []
     fault_kinds = []
+    state_abstraction = "(row count, sorted multiset of insertion classes applied so far [top/middle/bottom/mixed/none], column count, all-NaN mask over the 22 curve columns)"
     rule = (
         "direct runs: one table (real builder from 1-8 random streams, or synthetic with a random subset of the 22 curve columns "
         "populated, others NaN) + a history of 1-12 insertion requests (scalars / lists of 1-6 temperatures placed relative to the "
